@@ -93,12 +93,19 @@ def frame_check(design, passname):
                 m = n.op_param[1]
                 o = ams.get(m.name)
                 if o is None or type(o) is not type(m) or (o.id, o.bitwidth, o.addrwidth, o.asynchronous,
-                                                           o.max_read_ports, o.max_write_ports) != \
-                        (m.id, m.bitwidth, m.addrwidth, m.asynchronous, m.max_read_ports, m.max_write_ports) \
+                                                           o.max_read_ports, o.max_write_ports,
+                                                           getattr(o, 'pad_with_zeros', None),
+                                                           repr(getattr(o, 'data', None))) != \
+                        (m.id, m.bitwidth, m.addrwidth, m.asynchronous, m.max_read_ports, m.max_write_ports,
+                         getattr(m, 'pad_with_zeros', None), repr(getattr(m, 'data', None))) \
                         or n.op_param[0] != m.id:
                     probs.append('memory %s not copied faithfully' % m.name)
     # later edits / simulation of either block do not affect the other
-    trB0 = sim_trace(B) if not isinstance(B, pyrtl.PostSynthBlock) or True else None
+    try:
+        trB0 = sim_trace(B)
+    except Exception as e:
+        probs.append('simulating the result raised %s: %s' % (type(e).__name__, str(e)[:120]))
+        return dict(failed=True, observed=probs, expected=[])
     with pyrtl.set_working_block(B, no_sanity_check=True):
         x = pyrtl.Input(1, 'c11_new_in')
         y = pyrtl.Output(1, 'c11_new_out')
